@@ -111,3 +111,17 @@ func init() {
 		return iface{types.NewPointer(vt), &cell}
 	}
 }
+
+func init() {
+	// logging is never the subject: structured-logging sinks get empty bodies (DESIGN 3.2)
+	nop := func(fr *frame, a []value) value { return nil }
+	for _, m := range []string{"Debug", "Info", "Warn", "Error", "DebugContext", "InfoContext", "WarnContext", "ErrorContext", "Log", "LogAttrs", "log", "logAttrs"} {
+		externals["(*log/slog.Logger)."+m] = nop
+	}
+	externals["(*log/slog.Logger).Enabled"] = func(fr *frame, a []value) value { return false }
+	externals["log/slog.Debug"], externals["log/slog.Info"], externals["log/slog.Warn"], externals["log/slog.Error"] = nop, nop, nop, nop
+	for _, m := range []string{"Printf", "Println", "Print"} {
+		externals["log."+m] = nop
+		externals["(*log.Logger)."+m] = nop
+	}
+}
